@@ -1,4 +1,5 @@
 CONSTANTS MaxC = 3  MaxP = 3  RxCap = 1  TxCap = 1  D = 6  Mode = "any"  Cover = "all"
+CONSTANT RoomRule = TRUE
 SPECIFICATION GSpec
 INVARIANTS Emit
 CHECK_DEADLOCK FALSE
